@@ -31,12 +31,18 @@ GUIDE = "│"
 
 
 def source():
-    line = st.one_of(st.sampled_from(LINES), st.sampled_from(LINES), st.text(st.sampled_from("abc =(){}[]#'\".:,_1\t" + GC.WIDE[:4]), max_size=14))
+    line = st.one_of(st.sampled_from(LINES), st.sampled_from(LINES), st.sampled_from(LINES), st.text(st.sampled_from("abc =(){}[]#'\".:,_1\t" + GC.WIDE[:4]), max_size=14),
+                     st.sampled_from(["\x0c", "\x0c", "# page\x0c", "a = 1\x0bb", "s = 'x\u2028y'", "# \u2029 end"]))
     return st.builds(lambda lead, body, trail, nl: "\n" * lead + "\n".join(body) + "\n" * trail + ("\n" if nl else ""), st.sampled_from([0, 0, 1, 2, 3]), st.lists(line, max_size=8), st.sampled_from([0, 0, 1, 3]), st.booleans())
 
 
+SPECIAL_SEPARATORS = "\x0b\x0c\u2028\u2029"   # line boundaries for str.splitlines() but not for Python, the gutter or Text.split("\n")
+STRIPPED_BY_TEXT = "\x07\x08\x0b\x0c\r"
+
+
 def expected_lines(code, tab_size):
-    lines = code.expandtabs(tab_size).split("\n")
+    """The source lines as they can be displayed: tabs expanded; Text removes the control characters BEL BS VT FF CR (documented strip_control_codes)."""
+    lines = "".join(c for c in code if c not in STRIPPED_BY_TEXT).expandtabs(tab_size).split("\n")
     return lines
 
 
@@ -50,7 +56,8 @@ class SyntaxLines(Part):
     name = "syntax"
     rule = ("sources of 0-8 lines with 0-3 leading and trailing blank lines, tabs, wide characters, with/without final newline x lexer {python, json, html, "
             "text, unknown} x line_numbers x start_line 1..10000 x line_range (inside, straddling, beyond, start < 1) x highlight_lines x word_wrap x "
-            "code_width x indent_guides x theme x tab_size x width (wide: exact text; narrow: numbers only); non-trivial = line numbers on and (a leading "
+            "code_width x indent_guides x theme x tab_size x width (wide: exact text; narrow: numbers only) x 1-3 renders of the same object; sources may contain FF/VT/U+2028/U+2029 "
+            "(line boundaries for str.splitlines only); non-trivial = line numbers on and (a leading "
             "blank line or a range crossing the end)")
     budget = {"quick": (8, 800), "thorough": (16, 8000)}
     chunk = 400
@@ -58,11 +65,11 @@ class SyntaxLines(Part):
     def strategy(self, tier):
         rng = st.one_of(st.none(), st.none(), st.tuples(st.integers(-2, 12), st.integers(1, 14)).map(lambda t: [t[0], max(1, t[0], t[1])]))
         return st.builds(
-            lambda code, lexer, ln, start, lr, hl, ww, cw, ig, theme, ts, narrow: {"code": code, "lexer": lexer, "line_numbers": ln, "start_line": start, "line_range": lr if ln else None, "highlight": hl,
-                                                                                    "word_wrap": ww, "code_width": cw, "indent_guides": ig, "theme": theme, "tab_size": ts, "narrow": narrow},
+            lambda code, lexer, ln, start, lr, hl, ww, cw, ig, theme, ts, narrow, rn: {"code": code, "lexer": lexer, "line_numbers": ln, "start_line": start, "line_range": lr if ln else None, "highlight": hl,
+                                                                                    "word_wrap": ww, "code_width": cw, "indent_guides": ig, "theme": theme, "tab_size": ts, "narrow": narrow, "renders": rn},
             source(), st.sampled_from(LEXERS), st.sampled_from([True, True, False]), st.one_of(st.just(1), st.integers(1, 10000), st.sampled_from([9, 99, 999])), rng,
             st.lists(st.integers(1, 12), max_size=3), st.booleans(), st.one_of(st.none(), st.none(), st.integers(20, 60)), st.booleans(), st.sampled_from(THEMES), st.sampled_from([4, 4, 8, 2]),
-            st.one_of(st.none(), st.none(), st.integers(12, 30)),
+            st.one_of(st.none(), st.none(), st.integers(12, 30)), st.sampled_from([1, 1, 2, 3]),
         )
 
     def check(self, spec, ctx):
@@ -77,7 +84,32 @@ class SyntaxLines(Part):
         W = spec["narrow"] if spec["narrow"] else 400
         syn = sut(Syntax, code, spec["lexer"], theme=spec["theme"], line_numbers=numbers, start_line=start, line_range=tuple(lr) if lr else None,
                   highlight_lines=set(spec["highlight"]), word_wrap=spec["word_wrap"], code_width=spec["code_width"] if not spec["narrow"] else None, indent_guides=spec["indent_guides"], tab_size=ts)
-        con = sut(Console, file=io.StringIO(), width=W, color_system="truecolor", force_terminal=True, legacy_windows=False, _environ={})
+        # the same Syntax object is rendered more than once (a Live refresh, two consoles): every render shows the same lines
+        for ri in range(spec.get("renders", 1)):
+            con = sut(Console, file=io.StringIO(), width=W, color_system="truecolor", force_terminal=True, legacy_windows=False, _environ={})
+            if not self.verify(spec, ctx, syn, con, W, " (render %d of the same object)" % (ri + 1) if ri else ""):
+                return
+        src = expected_lines(code, ts)
+        lead = len(code) - len(code.lstrip("\n"))
+        crossing = bool(lr) and lr[1] > len(src) - (1 if code.endswith("\n") else 0)
+        if numbers and (lead or crossing):
+            ctx.nontrivial = True
+        if lead:
+            ctx.cls("leading-blank-lines")
+        if crossing:
+            ctx.cls("range-crossing-end")
+        if spec.get("renders", 1) > 1:
+            ctx.cls("rendered-twice")
+        if any(c in code for c in SPECIAL_SEPARATORS):
+            ctx.cls("separator-characters")
+        ctx.cls("lexer-" + spec["lexer"])
+
+    def verify(self, spec, ctx, syn, con, W, again):
+        code = spec["code"]
+        ts = spec["tab_size"]
+        start = spec["start_line"]
+        lr = spec["line_range"]
+        numbers = spec["line_numbers"]
         segs = sut(lambda: list(con.render(syn, con.options)))
         out = "".join(s.text for s in segs if not s.is_control)
         out_lines = out.split("\n")
@@ -91,8 +123,8 @@ class SyntaxLines(Part):
             a, b = lr
             indexed = indexed[max(0, a - 1):max(0, b)]
         want = [(start + i, l.rstrip()) for i, l in indexed]
-        desc = "Syntax(%r, %r, line_numbers=%r, start_line=%d, line_range=%r, word_wrap=%r, code_width=%r, indent_guides=%r, tab_size=%d) at width %d" % (
-            code, spec["lexer"], numbers, start, lr, spec["word_wrap"], spec["code_width"], spec["indent_guides"], ts, W)
+        desc = "Syntax(%r, %r, line_numbers=%r, start_line=%d, line_range=%r, word_wrap=%r, code_width=%r, indent_guides=%r, tab_size=%d) at width %d%s" % (
+            code, spec["lexer"], numbers, start, lr, spec["word_wrap"], spec["code_width"], spec["indent_guides"], ts, W, again)
         exact = not spec["narrow"] and (spec["code_width"] is None or all(OC.width(l) <= spec["code_width"] for _, l in want))
         if numbers:
             ncw = len(str(start + code.count("\n"))) + 2
@@ -105,7 +137,7 @@ class SyntaxLines(Part):
                     continue
                 if not field.strip().isdigit() or ln[ncw:ncw + 1] not in (" ", ""):
                     ctx.violation("gutter", "C17/gutter/format", "%s: cannot split gutter of %r (number column %d wide)" % (desc, ln, ncw))
-                    return
+                    return False
                 got.append((int(field), marker, rest))
             got_pairs = [(n, t.rstrip()) for n, _, t in got]
             if spec["indent_guides"]:
@@ -123,26 +155,26 @@ class SyntaxLines(Part):
             if gn != wn_all[:len(gn)] or len(gn) < len(wp):
                 sig = "leading-blank" if lead else ("range" if lr else "sequence")
                 ctx.violation("numbers", "C17/numbers/" + sig, "%s: shows line numbers %r, expected %r (trailing blank lines optional)\n%s" % (desc, gn, wn_all, out))
-                return
+                return False
             gp = got_pairs[:len(wp)]
             extra = got_pairs[len(wp):]
             if exact and any(t.strip() for _, t in extra):
                 ctx.violation("text", "C17/text/numbered", "%s: text after the last source line: %r" % (desc, extra))
-                return
+                return False
             if exact and not spec["word_wrap"]:
                 if gp != wp:
                     bad = [(g, w) for g, w in zip(gp, wp) if g != w][:2]
                     ctx.violation("text", "C17/text/%s" % ("leading-blank" if lead else "numbered"), "%s: line text differs: %r\n%s" % (desc, bad, out))
-                    return
+                    return False
             elif exact:
                 if [(n, t.replace(" ", "")) for n, t in gp] != [(n, t.replace(" ", "")) for n, t in wp]:
                     ctx.violation("text", "C17/text/numbered-wrapped", "%s: characters differ" % desc)
-                    return
+                    return False
             for n, marker, _ in got:
                 hl = n in set(spec["highlight"])
                 if (marker == "❱ ") != hl:
                     ctx.violation("highlight", "C17/highlight/marker", "%s: line %d marker %r, highlight_lines=%r" % (desc, n, marker, spec["highlight"]))
-                    return
+                    return False
         else:
             if exact and not spec["word_wrap"]:
                 gl = [l.rstrip() for l in out_lines]
@@ -154,16 +186,8 @@ class SyntaxLines(Part):
                 if gl != wl:
                     lead = len(code) - len(code.lstrip("\n"))
                     ctx.violation("text", "C17/text/%s" % ("leading-blank" if lead else "plain"), "%s: lines %r, source lines %r" % (desc, gl, wl))
-                    return
-        lead = len(code) - len(code.lstrip("\n"))
-        crossing = bool(lr) and lr[1] > len(src)
-        if numbers and (lead or crossing):
-            ctx.nontrivial = True
-        if lead:
-            ctx.cls("leading-blank-lines")
-        if crossing:
-            ctx.cls("range-crossing-end")
-        ctx.cls("lexer-" + spec["lexer"])
+                    return False
+        return True
 
 
 class Tracebacks(Part):
@@ -175,9 +199,9 @@ class Tracebacks(Part):
     chunk = 60
 
     def strategy(self, tier):
-        return st.builds(lambda lead, filler, depth, pos, nl, tabs, wide, wrap: {"lead": lead, "filler": filler, "depth": depth, "pos": pos, "final_newline": nl, "tabs": tabs, "wide": wide, "wrap": wrap},
+        return st.builds(lambda lead, filler, depth, pos, nl, tabs, wide, wrap, pb: {"lead": lead, "filler": filler, "depth": depth, "pos": pos, "final_newline": nl, "tabs": tabs, "wide": wide, "wrap": wrap, "pagebreaks": pb},
                          st.integers(0, 4), st.integers(0, 6), st.integers(1, 3), st.sampled_from(["first", "middle", "last"]), st.booleans(), st.booleans(), st.booleans(),
-                         st.sampled_from(["none", "none", "finally", "with"]))
+                         st.sampled_from(["none", "none", "finally", "with"]), st.sampled_from([0, 0, 1, 4, 6]))
 
     def check(self, spec, ctx):
         from rich.console import Console
@@ -194,6 +218,8 @@ class Tracebacks(Part):
                 ctx.nontrivial = True
             if spec["lead"]:
                 ctx.cls("leading-blank-lines")
+            if spec.get("pagebreaks"):
+                ctx.cls("form-feeds-above")
         finally:
             shutil.rmtree(d, ignore_errors=True)
             linecache.clearcache()
@@ -203,7 +229,7 @@ class Tracebacks(Part):
         from rich.traceback import Traceback
 
         ind = "\t" if spec["tabs"] else "    "
-        lines = [""] * spec["lead"]
+        lines = [""] * spec["lead"] + ["\x0c", "# section", ""] * spec.get("pagebreaks", 0)   # form feeds: the page breaks of GNU-style sources
         msg = "漢字 boom" if spec["wide"] else "boom"
         body = []
         for dd in range(spec["depth"]):
